@@ -170,3 +170,13 @@ pub fn run_cli_conf_from(cwd: &Path, conf: &Path, target: &str) -> CliResult {
     cmd.current_dir(cwd).arg("--conf").arg(conf).arg("-t").arg(target);
     run_with_timeout(&mut cmd, 60)
 }
+
+/// Runs oal-cli with a configuration file and additional command-line options (which take precedence).
+pub fn run_cli_conf_opts(dir: &Path, conf: &str, opts: &[&str]) -> CliResult {
+    let mut cmd = cli_command();
+    cmd.current_dir(dir).arg("--conf").arg(conf);
+    for o in opts {
+        cmd.arg(o);
+    }
+    run_with_timeout(&mut cmd, 60)
+}
